@@ -187,7 +187,10 @@ func (r *renderer) sequence(n *ynode, ind, d int) {
 
 // Spec is every choice that defines a placement; build(Spec) is deterministic.
 type Spec struct {
-	ID       int    `json:"id"`
+	ID int `json:"id"`
+	// Prop: node properties written before the planted scalar ("&anc " / "!!str "); the scalar itself
+	// starts after them
+	Prop     string `json:"prop,omitempty"`
 	Family   string `json:"family"` // expr, key, dupkey, value, glob, multi
 	Kind     string `json:"kind"`   // lexer parser undef type untrusted tmpl key dupkey value glob
 	Site     string `json:"site"`
@@ -1000,7 +1003,7 @@ func build(s Spec) (*Built, error) {
 	text := s.Pad + s.Text
 	switch s.Family {
 	case "expr", "value", "glob":
-		scalarSrc = quote(s.Style, text)
+		scalarSrc = s.Prop + quote(s.Style, text)
 		place(doc, s.Site, scalarSrc, s.Flow, s.Gap, s.Above)
 		bt.Quoted = s.Style != 0
 	case "multi":
@@ -1416,6 +1419,14 @@ func oracle(bt *Built, ds []diag) []fail {
 		return fs
 	}
 	for _, g := range got {
+		if s.Prop != "" && g[0] == bt.TruthLine && g[1] == bt.TruthCol-len(s.Prop) {
+			// the reported column counts from the anchor / tag written before the scalar
+			fs = append(fs, fail{
+				What: fmt.Sprintf("%s diagnostic reported at %d:%d but the offending token is at %d:%d: the column is computed from the position of the node properties (%q) written before the scalar, not from the scalar", s.Kind, g[0], g[1], bt.TruthLine, bt.TruthCol, s.Prop),
+				Key:  "node-property-before-scalar:" + map[bool]string{true: "anchor", false: "tag"}[strings.HasPrefix(s.Prop, "&")],
+				Spec: s, File: bt.File, Truth: [2]int{bt.TruthLine, bt.TruthCol}, Got: got})
+			break
+		}
 		if g[0] != bt.TruthLine || g[1] != bt.TruthCol {
 			fs = append(fs, fail{
 				What: fmt.Sprintf("%s diagnostic reported at %d:%d but the offending token/key/value is at %d:%d", s.Kind, g[0], g[1], bt.TruthLine, bt.TruthCol),
@@ -1732,6 +1743,19 @@ func main() {
 			s = genGlobSpec(r, i)
 		default:
 			s = genMultiSpec(r, i)
+		}
+		// an anchor or a tag before the planted scalar
+		if (s.Family == "expr" || s.Family == "glob") && s.Variant != "several-ref-chars" && !strings.HasPrefix(s.Variant, "several") &&
+			!(strings.HasPrefix(s.Site, "matrix.") && s.Style != 0) { // (quoted matrix values: another recorded finding)
+			switch {
+			case i%11 == 5 && !s.IfBare:
+				s.Prop = "&anc "
+			case i%11 == 8 && s.Family == "glob":
+				s.Prop = "!!str "
+			}
+		}
+		if s.Prop != "" {
+			sum.Dist["node_property_before_scalar"]++
 		}
 		bt, err := build(s)
 		if err != nil {
